@@ -281,6 +281,7 @@ type FuncResult struct {
 	Notes      []string
 	Assumptions []string
 	Paths      int
+	Trivial    []string // names of obligations whose goal folded to true during generation
 }
 
 func (e *Engine) verifyFunc(pkgPath string, fc *FuncContract) *FuncResult {
@@ -346,6 +347,9 @@ func (e *Engine) verifyFunc(pkgPath string, fc *FuncContract) *FuncResult {
 	res.BV = c.ar.bv
 	res.Undecided = append(res.Undecided, c.undecided...)
 	res.Paths = c.npaths
+	for n := range c.trivialNames {
+		res.Trivial = append(res.Trivial, n)
+	}
 	for n := range c.notes {
 		res.Notes = append(res.Notes, n)
 	}
